@@ -1,56 +1,106 @@
+import hashlib as _hl11, os as _os11
+
+_verif11 = _os11.path.dirname(_os11.path.dirname(_os11.path.dirname(_os11.path.abspath(__file__))))
+
+
+def _conicproj_digest():
+    # the harness compiles $GV_REPO/tools/ConicProj.cpp into itself: make the harness cache key depend on its text
+    p = _os11.path.join(_os11.environ.get("GV_REPO", "/repo"), "tools", "ConicProj.cpp")
+    try:
+        return _hl11.sha256(open(p, "rb").read()).hexdigest()[:16]
+    except OSError:
+        return "0"
+
+
 PROPS["C11"] = dict(
-    harnesses=[dict(name="C11", procs_quick=2, procs_thorough=16, extra=["-lquadmath"])],
+    harnesses=[dict(name="C11", procs_quick=2, procs_thorough=16,
+                    extra=["-lquadmath", "-I" + _os11.path.join(_verif11, "harness", "C11_tools"), "-DGV_TOOLS_DIGEST=0x" + _conicproj_digest()])],
     gens=[],
-    rule=("configurations: class ∈ {polar stereographic, Lambert conformal conic, Albers} × ellipsoid f ∈ {WGS84, 0, 0.1, −0.1, 1/150} (a ∈ {WGS84, 6.4e6, 1, "
-          "6378388}) × scale k ∈ {1, 0.9996, 0.994, 0.5, 2, 1.25} × constructor stratum {one parallel; two equal; 1e-6…1e-12 apart; ±90 (polar/azimuthal); 0 "
-          "(Mercator/cylindrical); symmetric about the equator; nearly symmetric; northern pair; southern pair (negative cone constant); mixed hemispheres; one "
-          "parallel much nearer a pole than the other; sin/cos form; sin/cos with cos = 1e-4…1e-12; multiples of 10°} × optional SetScale(lat, k) (incl. the pole of a "
-          "polar cone); the library's static instances and the header's example. Points: lat ∈ {±90, ±(90−1e-k), ±1e-k, the standard parallels and their neighbourhood, "
-          "integers, uniform}, lon0 ∈ {0, ±180, 90, 360, 540, uniform}, lon − lon0 ∈ {0, ±1e-k, ±179.9…, multiples of 360 added, uniform}. Divided differences: x = y, "
-          "1–4 ulp apart, 1e-3…1e-12 apart, opposite signs, uniform, 1e-8…1e3. Constructor domain: latitudes {±90, 0, 91, −90.0000001, 100, NaN, inf, uniform in ±95} "
-          "× invalid a, f, k. non-trivial = finite result; distinct = distinct (op, leading argument bits)"),
+    rule=("configurations: class ∈ {polar stereographic, Lambert conformal conic, Albers} × ellipsoid f: 3/4 of the cases terrestrial {WGS84, 0, 0.1, −0.1, 1/150}, 1/4 "
+          "eccentric {±0.5, ±0.25, 0.75 (e² exact dyadic rationals; e² = 3/4 is the threshold of DDatanhee), 1−√½ (e² ≈ 1/2), 1−√2 (e² ≈ −1), −1 (e² = −3: every sixth term "
+          "of DDatanhee2 vanishes), −1 ± 1 ulp, −2 (e² = −8), −3, −5, 0.9, 0.99} × a ∈ {WGS84, 6.4e6, 1, 6378388, 1e-3, 1e10} × scale k ∈ {1, 0.9996, 0.994, 0.5, 2, 1.25; 1e-3, "
+          "1e3, 0.03, 40} × constructor stratum {one parallel; two equal; 1e-6…1e-12 apart; ±90 (polar/azimuthal); 0 (Mercator/cylindrical); symmetric about the equator; "
+          "nearly symmetric; northern pair; southern pair (negative cone constant); mixed hemispheres; one parallel much nearer a pole than the other; sin/cos form; sin/cos "
+          "with cos = 1e-4…1e-12; cone constant at the thresholds n = 1/4, n = 1/2, nc = 1/2 of Init/Reverse (both sides, 1e-9…12° away, and the one-parallel cone exactly on it); "
+          "one parallel exactly on the equator; both in one hemisphere with the lower 1e-6…10° from the equator; multiples of 10°} × optional SetScale(lat, k) (incl. the pole "
+          "of a polar cone, k = 1e-3, 250); fixed: the library's static instances (called as such), the header's example, parallels (20, 50) on every eccentric f for both "
+          "classes (the F61 witness), the witness of the cycling Newton iteration. Points: lat ∈ {±90, ±(90−1e-k), ±1e-k, the standard parallels and their neighbourhood, the "
+          "origin latitude and its ±2 ulp neighbours (dpsi == 0 branch), integers, uniform}, lon0 ∈ {0, ±180, 90, 360, 540, uniform}, lon − lon0 ∈ {0, ±1e-k, ±179.9…, multiples "
+          "of 360 added, uniform}. SetScale histories of 2–5 calls (all three classes). tools/ConicProj on one line (forward/reverse, -w, -p ∈ {−2, 0, 3, 6, 10, 12}, latitudes out "
+          "of range). Helpers: tan φ incl. 0, ±1, 1/√3, √3; DDatanhee arguments incl. x = y = 1, y = 1, x ∈ {0, −0, ±5e-324, 1e-300}, swapped order; atanhxm1 at 0, ±1/2 ± 2 ulp, "
+          "±2^-k ± 1 ulp, 1e-300, 5e-324, e² of the strata; tauf at |taup| = 70, 2/√ε, 0, 1 ± 2 ulp. Divided differences: x = y, 1–4 ulp apart, 1e-3…1e-12 apart, opposite signs, "
+          "one argument ±0, uniform, 1e-8…1e3. Constructor domain: latitudes {±90, 0, 91, −90.0000001, 100, NaN, inf, uniform in ±95} × invalid a, f (incl. 1 − 1 ulp), k. "
+          "non-trivial = finite result; distinct = distinct (op, leading argument bits)"),
     tolerances={
-        "closed form x, y (binary128 oracle)": "4·(10 nm·(a/a_WGS84)·max(1, k) + 1e-14·ρ) [ρ = distance from the origin; 10 nm documented as true distance, scale error 7e-15 documented] "
-                                               "+ for two distinct parallels the documented origin-latitude error 4·4.5e-14° (× e²/e²_WGS84 up to |f| = 1/120, × 1000 for f = ±0.1); only inside the "
-                                               "documented domain dlat ≤ 160°, max|lat| ≤ 90 − min(2e-4, 2.2e-6(180−dlat), 6e-8 dlat²)",
-        "k, gamma vs closed form": "1e-12 relative + 4·10 nm / (distance from the apex of the cone)",
-        "Reverse∘Forward": "4·(10 nm + 1e-14·ρ·max(k, 1/k)) on the ellipsoid or 4·(10 nm + 1e-14·ρ) in the plane, where |θ| < 179° (an Albers cone with k²n > 1 overlaps itself)",
-        "Forward∘Reverse": "the same in the plane + one ulp of 90° on the ground",
-        "conformality / equal area (Richardson differencing of the implementation, h = 0.02°)": "1e-7 relative (a-priori error of the differencing), |lat| ≤ 85°",
-        "prescribed scale (standard parallels, SetScale latitude), central scale": "1e-12 relative + 4·10 nm / apex distance",
+        "kappa(f)": "max(1, b/a, (a/b)²): (a/b)² = 1/(1−e²) is the condition number of the stored e² (the factor 1 + |e'²| of C15), b/a the size of a prolate body in units of a; "
+                    "every documented figure below is multiplied by it (1.007 for WGS84, 1.23 for f = 0.1, 4 for f = 0.5, 100 for f = 0.9, 6 for f = −5)",
+        "computed condition of the problem": "32 ulp × the displacement of the exact (binary128) answer under one ulp of each input (f, the parallels or their sines/cosines, the "
+                    "SetScale latitude, lat, lon, lon0), added to the closed-form tolerances of x, y, k, gamma and of the latitude of origin",
+        "closed form x, y (binary128 oracle)": "4·kappa·(10 nm·(a/a_WGS84)·max(1, k [Albers: max(k, 1/k)]) + 1e-14·ρ) [ρ = distance from the origin; 10 nm documented as true distance, scale error 7e-15 documented] "
+                                               "+ for two distinct parallels the documented origin-latitude error 4·4.5e-14° × (e²/e²_WGS84 up to |f| = 1/120, × 1000 for f = ±0.1, max(1000, kappa·e²/e²_WGS84) beyond), "
+                                               "as a displacement along the meridian (× the meridional radius of curvature) and as a change of the cone constant (× R²/a × k1 [Albers] or 1/k1); "
+                                               "+ 8 ulp of θ = n λ (k1² n λ for Albers) × the distance from the apex; only inside the documented domain dlat ≤ 160°, max|lat| ≤ 90 − min(2e-4, 2.2e-6(180−dlat), 6e-8 dlat²)",
+        "k, gamma vs closed form": "kappa·(1e-12 relative + 4·10 nm / (distance from the apex of the cone)) + the origin-latitude error × |λ| (× k1² for Albers) for gamma",
+        "Reverse∘Forward": "4·kappa·(10 nm + 1e-14·ρ·max(k, 1/k)) on the ellipsoid or 4·kappa·(10 nm·k0 [Albers: max(k0, 1/k0)] + 1e-14·ρ) in the plane, where |θ| < 179° (an Albers cone with k²n > 1 overlaps itself)",
+        "Forward∘Reverse": "the same in the plane + one ulp of 90° on the ground (× the meridional radius of curvature)",
+        "conformality / equal area (Richardson differencing of the implementation, h = 0.02°)": "1e-7·kappa² relative (a-priori error of the differencing; not used beyond 1e-3) + (dθ)⁴/30 in longitude, |lat| ≤ 85°",
+        "prescribed scale (standard parallels, SetScale latitude, SetScale histories), central scale": "kappa·(1e-12 relative + 4·10 nm / apex distance) (+ 8 ulp per SetScale call)",
         "constructor / SetScale / mirror / parallel-order equivalence": "2 × the position tolerance",
+        "static instances, overloads without gamma/k, inspectors, tools/ConicProj": "exact (bit for bit against a freshly constructed object with the documented parameters; printed line = Utility::str of the class's result)",
+        "Albers helpers vs their definitions in binary128": "txif 64·kappa ulp, tphif∘txif 256·kappa ulp, atanhxm1 16 ulp × its condition number 1/((1−x)(1+v)), DDatanhee 128·kappa ulp of the value "
+                                   "(+ of its operands where 1 − min(x, y) ≥ 1/4 and a straight divided difference is legitimate)",
         "kernel models vs implementation (Init members, Forward, Reverse, SetScale, txif, tphif, DDatanhee, atanhxm1)": "32 ulp + 8 × the largest deviation of five runs of the "
                                    "model with hypot and log jiggled in the last bit by a hash (last-bit conditioning probe; nothing fitted); _drhomax on the implementation's own members; "
-                                   "Reverse k additionally |ψ| ulp (k is an exponential of the isometric latitude); lat/lon 64 ulp of 90°/180°",
-        "model vs implementation": "polar stereographic 64 ulp of ρ (+ the model's own sensitivity to 8 ulp of hypot in Reverse), taupf 32/(1−es²) ulp, tauf 64 ulp + sensitivity, divided "
+                                   "Reverse k additionally |ψ| ulp (k is an exponential of the isometric latitude); lat/lon 64 ulp of 90°/180°; Reverse and tphif/tauf are compared only where the "
+                                   "coded Newton loop stops by its own tolerance (the cap, 50 iterations since the repair 707b423 of finding F88, is silent); not run inside the classes of the open findings on Init",
+        "model vs implementation": "polar stereographic 64·max(1, 1/(1−e²)) ulp of ρ (+ the model's own sensitivity to 8 ulp of hypot in Reverse), taupf 32·max(1, 1/(1−e²)) ulp, tauf 64·max(1, 1/(1−e²)) ulp + sensitivity, divided "
                                    "differences 32 ulp, hemisphere wrapper and constructor domains exact",
     },
     level_text=("Theorems over ℝ about the definitions the driver executes (Model/Conic.lean, Model/ConicKernels.lean). Polar stereographic: Reverse∘Forward = id for every "
                 "ellipsoid, scale, hemisphere, latitude and longitude and every inversion tauf of taupf (ps_inverse, ps_key_identity), pole case, k = ρ/(a m(φ)), SetScale, Newton "
-                "fixed point. Divided differences: Dhyp, Dsn, Dlog1p, Dexp, Dsinh, Dasinh, Deatanhe (oblate, prolate), Datanhee (oblate) are (g x − g y)/(x − y). Hemisphere "
+                "fixed point. Divided differences: Dhyp, Dsn, Dlog1p, Dexp, Dsinh, Dasinh, Deatanhe (oblate, prolate), Datanhee (oblate, prolate for every pair, sphere) are (g x − g y)/(x − y). Hemisphere "
                 "bookkeeping for every cone kernel: mirror law, Reverse∘Forward = id of the wrapper, canonical parallels; the three constructor forms accept the same sets. "
                 "Cone kernels as coded: LCC — the coded x, y are ρ sin θ, ρ0 − ρ cos θ (cone_xy_closed); Forward's drho (both branches) is (scale/n)(e^{−nψ} − e^{−nψ0}) = ρ − ρ0 for "
                 "ρ = a F tⁿ (lcc_drho_closed); k = k0 (scβ e^{−nψ})/(scβ0 e^{−nψ0}) (lcc_k_closed); with Init's _k0 the scale on the first standard parallel is k1 "
-                "(lcc_scale_on_parallel1); the divided-difference cone constant num/den of the two-parallel Init is Snyder's (ln m1 − ln m2)/(ln t1 − ln t2) (lcc_n_snyder, oblate); "
+                "(lcc_scale_on_parallel1); the divided-difference cone constant num/den of the two-parallel Init is Snyder's (ln m1 − ln m2)/(ln t1 − ln t2) for oblate (lcc_n_snyder), prolate and "
+                "spherical ellipsoids (lcc_n_closed, lcc_n_snyder_prolate — for every pair of parallels since the repair 36a144d of finding F84); NEW the careful evaluation of 1 − n for n ≥ 1/4 "
+                "(all 60 lines: s, t, a, Dlog1p, tbm, tam via dbet, dχ, D(ν2, ν1) in both arms) is exactly 1 − n (lcc_one_minus_n, given that Deatanhe is a divided difference on the three pairs used), "
+                "hence nc = √(max 0 (1 − n)(1 + n)) (lcc_nc_careful_oblate, lcc_nc_careful_prolate incl. the sphere); "
                 "Reverse recovers drho (cone_reverse_drho), dpsi (lcc_reverse_dpsi) and tan χ in both branches 2n ≤ 1 / 2n > 1 (lcc_reverse_tchiA/B); Reverse∘Forward = id on the kernel "
                 "level given tauf∘taupf = id (lcc_reverse_forward_kernel: drho, dpsi, tan χ, tan φ; ψ ≠ ψ0, below the _drhomax clamp). Albers — txif is the authalic tangent "
-                "Q/√(QZ² − Q²) (txif_closed, oblate); dq = qZ(sin ξ − sin ξ0) (alb_dq); n0·drho = a(√(m0² − n0 dq) − √m0²), i.e. drho = ρ − ρ0 for ρ = a√(C − n q)/n (alb_drho_closed); "
+                "Q/√(QZ² − Q²) for oblate (txif_closed), prolate (txif_closed_prolate), spherical (txif_closed_sphere: txif = id) and any ellipsoid with the two divided differences (txif_closed_gen); "
+                "NEW Init's s, sm1 = 1 − s and C are the closed forms of the comments, s = (tβ2² − tβ1²)/(scβ2² sxi2 − scβ1² sxi1), C = (scβ2² sxi2 − scβ1² sxi1)/(scβ2² scβ1² (sxi2 − sxi1)) "
+                "(alb_s_sm1_C_closed, both branches of the (1−sxi)/(1−sphi) factors; DDatanhee enters as the second divided difference); the function u of the Newton iteration is "
+                "sm1·g − (s/qZ)(1 − g(qZ − q0)) (alb_newton_u_closed), a fixed point of the Newton map is a zero of u and the loop stays there (alb_newton_fixed_point), and u = 0 is the defining "
+                "equation s = sinφ0 qZ/(m0² + sinφ0 q0) (alb_defining_equation); dq = qZ(sin ξ − sin ξ0) (alb_dq); n0·drho = a(√(m0² − n0 dq) − √m0²), i.e. drho = ρ − ρ0 for ρ = a√(C − n q)/n (alb_drho_closed); "
                 "Reverse recovers drho, scxi0(sin ξ − sin ξ0) and tan ξ (alb_reverse_drho, alb_reverse_dsxia, alb_reverse_txi); Reverse∘Forward = id on the kernel level given "
                 "tphif∘txif = id (alb_reverse_forward_kernel); SetScale keeps _k2 = _k0² and the k·(1/k) area bookkeeping (alb_setscale_k2, alb_area_factor, alb_setscale_scale). "
-                "Correspondence (binary64 execution of the same definitions against the implementation, private members through the harness): everything of the first round plus "
+                "NEW the series: atanhxm1's loop is Horner's rule for Σ_{1≤k<n} xᵏ/(2k+1) (atanhxm1_horner) and that series converges to atanh(√x)/√x − 1 (atanhxm1_limit, HasSum, 0 < x < 1); "
+                "DDatanhee1: the t/c/z recurrences build the documented c[l] = the second divided difference of s^(2l+1) on (1, x, y) (dd1_coefficient), the value returned is a partial sum "
+                "Σ_{l≤L} e2^l c[l]/(2l+1) (dd1_partial_sum) and the series converges to the second divided difference of atanhee (dd1_limit, HasSum, oblate); DDatanhee2: the inner c recurrence "
+                "generates the binomial coefficients C(m+2, 2j+1) for every m, the coefficient polynomial is the odd/even part R_{m+2}/P_{m+2} of (1+e)^(m+2) (dd2_coefficient, dd2_PR_recurrence), "
+                "the coefficients −t_m ee_m are the Taylor coefficients of 1/(1 − e²(1−d)²) for every m (dd2_taylor: formal inverse, coefficient by coefficient), the xy recurrence is "
+                "(dy^(m+1) − dx^(m+1))/(dy − dx) (dd2_xy); a term vanishes identically iff R_{m+2}(e²) = 0 resp. P_{m+2}(e²) = 0 — at e² = −3 for m = 4, 10, 16, … — and two successive terms never "
+                "do for e² ≠ 1 (dd2_vanishing_terms); the executed loop stops only after two successive negligible terms and returns a partial sum (dd2_stops_after_two), while the rule before "
+                "9562c37 stops at the vanishing term m = 4 at e² = −3 although term 5 is not negligible (dd2_old_rule_refuted). "
+                "Correspondence (binary64 execution of the same definitions against the implementation, private members through the harness): "
                 "LambertConformalConic::Init (all 13 members, every branch incl. the careful 1 − n evaluation), Forward, Reverse, SetScale; AlbersEqualArea::Init (10 members, the Newton "
-                "loop), Forward, Reverse, SetScale, txif, tphif, DDatanhee (all three evaluation paths), atanhxm1. Partial — not theorems: the careful evaluation of 1 − n for n ≥ 1/4 "
-                "(lccNcCareful) and Albers Init's s, 1 − s, C and Newton iteration are modelled and executed but not proved equal to their closed forms; the longitude recovery through "
-                "atan2 in the kernel Reverse∘Forward theorems; prolate / spherical cases of lcc_n_snyder, txif_closed, Datanhee; convergence of the Newton iterations (tauf, tphif, "
-                "Init); the series DDatanhee1/2 and atanhxm1 equal to their limits; floating-point error bounds. These stay covered by the binary128 closed-form oracle and the "
-                "other oracles on the implementation."),
+                "loop), Forward, Reverse, SetScale, txif, tphif, DDatanhee (all three evaluation paths), atanhxm1, polar stereographic, tauf/taupf, the divided differences — now on the eccentric "
+                "strata as well. Partial — not theorems: Deatanhe/Datanhee as divided differences are hypotheses of the Init theorems where the ellipsoid is not fixed (instantiated for oblate, "
+                "prolate (every pair since 36a144d) and spherical); the longitude recovery through atan2 in the kernel Reverse∘Forward theorems; convergence of the Newton iterations (tauf, tphif, Init — the repaired findings F86, F88 showed "
+                "the unrepaired loops need not converge; the safeguarded Init loop is modelled with its backtracking); du as the derivative of u; the limits of DDatanhee1 for prolate ellipsoids and of DDatanhee2 (only: its coefficients are those of the Taylor series of the "
+                "limit); monotonicity of the isometric latitude (ψ1 ≠ ψ2 is a hypothesis); floating-point error bounds (findings F84–F89, F96–F99 are floating-point/branch defects outside the real-number theorems' "
+                "hypotheses). These stay covered by the binary128 closed-form oracle and the other oracles on the implementation."),
     level_note=("hand-written polymorphic model (RealLike) of PolarStereographic.cpp, Math::taupf/tauf/eatanhe, the divided-difference helpers of LambertConformalConic.hpp / AlbersEqualArea.hpp, the "
-                "_sign bookkeeping and the constructor checks; LatFix, tand, sincosd, atand, atan2d, AngNormalize are kernels (C16); nothing is regenerated from the source (no tables): the tie to "
-                "the code is the execution of the model against the working tree on every run; the oracle is independent code in IEEE binary128 (libquadmath) using Snyder (1987) eqs 3-12, 14-1…14-18, "
-                "15-1…15-11, 21-32…21-40 with analytic continuation e → i ε for prolate ellipsoids"),
-    technique="Lean 4 proofs over ℝ of the closed-form models and of the hemisphere/constructor bookkeeping for every kernel + binary64 execution of the same definitions against the implementation + binary128 closed-form oracle",
+                "_sign bookkeeping, the constructor checks and the cone kernels (Init, Forward, Reverse, SetScale, the Albers series); LatFix, tand, sincosd, atand, atan2d, AngNormalize are kernels (C16); "
+                "nothing is regenerated from the source (no tables): the tie to the code is the execution of the model against the working tree on every run; tools/ConicProj.cpp of the working tree is compiled "
+                "into the harness; the oracle is independent code in IEEE binary128 (libquadmath) using Snyder (1987) eqs 3-12, 14-1…14-18, "
+                "15-1…15-11, 21-32…21-40 with analytic continuation e → i ε for prolate ellipsoids; DDatanhee2LoopOld (the rule before 9562c37) is kept in the model as a counter-model only"),
+    technique="Lean 4 proofs over ℝ of the closed-form models, of Init of both conic classes, of the series recurrences (incl. HasSum limits from Mathlib's log series) and of the hemisphere/constructor bookkeeping for every kernel + binary64 execution of the same definitions against the implementation + binary128 closed-form oracle with computed condition numbers",
     assumptions=["the kernel models are hand transcriptions of LambertConformalConic.cpp / AlbersEqualArea.cpp; the tie to the code is their execution against the working tree on every run",
                  "Math::atand is odd and sincosd returns a valid sine/cosine pair with non-negative cosine on [-90, 90] (C16)",
                  "libm kernels (sinh, asinh, atanh, atan, exp, log, hypot) agree between Lean's Float and C++ to a few ulp",
-                 "Snyder's formulas are the definitions of the projections; the origin of a two-parallel cone is the latitude of minimum (azimuthal) scale, as the headers state"],
+                 "Snyder's formulas are the definitions of the projections; the origin of a two-parallel cone is the latitude of minimum (azimuthal) scale, as the headers state",
+                 "outside terrestrial flattening the documented accuracy figures are scaled by kappa(f) = max(1, b/a, 1/(1−e²)) and by the computed condition number of the problem; "
+                 "what exceeds that is reported (open findings F87, F89, F96, F98, F99, each with a class decided from the configuration alone)"],
 )
